@@ -175,7 +175,8 @@ def step (s : State) : Ev → State
     | some cn =>
       if cn.phase = .handling then
         if ok then
-          -- if ctx.Request.IsBodyStream() { err = ext.ReleaseBodyStream(ctx.RequestBodyStream()); if err != nil { return } }
+          -- if reqBodyStream != nil { err = ext.ReleaseBodyStream(reqBodyStream); if err != nil { return } }   (the local taken
+          -- before the handler ran, d6f45a0: what the handler does to `Request.bodyStream` no longer matters here)
           match cn.stream with
           | some x =>
             (s.put .stream x).setConn c (some { cn with phase := if skipErr then .ret .releaseErr else .released })
@@ -338,7 +339,7 @@ def expectedSites : List (String × String × String) := [
   ("Server.Serve", "", "s.Core.ServeHTTP(cc, ctx)"),
   ("Server.Serve", "", "writeResponse(ctx, zw)"),
   ("Server.Serve", "", "zw.Flush()"),
-  ("Server.Serve", "ctx.Request.IsBodyStream()", "ext.ReleaseBodyStream(ctx.RequestBodyStream())"),
+  ("Server.Serve", "reqBodyStream != nil", "ext.ReleaseBodyStream(reqBodyStream)"),
   ("Server.Serve", "hijackHandler != nil", "s.HijackConnHandle(ctx.GetConn(), hijackHandler)"),
   ("Server.Serve", "", "ctx.ResetWithoutConn()"),
   ("AcquireBodyStream", "", "bodyStreamPool.Get()"),
